@@ -46,6 +46,27 @@ Proof.
   - apply inv_init.
 Qed.
 
+(* (1b) ... and no data node that is reached ever fails the type gate: the data-flow check (against the
+   last data-carrying node) is sound.  Processors must produce their declared output type (thonest) and
+   the initial payload must suit the first data node (the validator cannot see the payload). *)
+Theorem C02_no_type_gate_failure :
+  forall (p : list inode) rs required d0 c0,
+  inspect impl p = (rs, required) ->
+  forallb node_ok rs = true -> valid impl rs = true ->
+  Forall thonest p ->
+  match first_data_in p with Some t => gate t d0 = true | None => True end ->
+  forall k d' c' n o,
+  run (firstn k (map fst p)) (d0, c0) = Done (d', c') ->
+  nth_error p k = Some (n, o) -> is_ctx n = false ->
+  gate (pr_in (n_proc n)) d' = true.
+Proof.
+  intros p rs required d0 c0 HI Hok Hv Hh H0 k d' c' n o Hrun Hnth Hd.
+  unfold inspect in HI. destruct (inspect_from impl 1 p init_state) as [rs0 st] eqn:E. injection HI as -> _.
+  unfold valid in Hv. apply andb_true_iff in Hv as [_ Hflow].
+  unfold typeflow in Hflow. rewrite gen_track_last_data in Hflow.
+  eapply (types_sound impl p 1 init_state rs st E Hok Hh None Hflow k 0 d0 c0 d' c' n o); eauto.
+Qed.
+
 (* the same statement for any variant that accumulates required keys in node order *)
 Theorem C02_keys_sound_variant : forall v, order_sensitive v = true -> deleted_at_entry v = true ->
   forall p idx st rs stf c0,
@@ -137,8 +158,19 @@ Lemma honest_no_created n : pr_created (n_proc n) = [] -> honest n.
 Proof. intros H d c d' c' _ k Hk. rewrite H in Hk. discriminate. Qed.
 Example ex_good_honest : Forall (fun x => honest (fst x)) good.
 Proof. repeat constructor; apply honest_no_created; reflexivity. Qed.
+Example ex_good_payload : match first_data_in good with Some t => gate t DNone = true | None => True end.
+Proof. reflexivity. Qed.
+(* library operations produce their declared output type *)
+Example ex_mul_thonest : thonest (nd (lib_mul false) [] None, TF).
+Proof.
+  intros _ d c d' c' H. simpl fst in H.
+  destruct (exec_data_node (nd (lib_mul false) [] None) d c (d', c') eq_refl H) as (_ & ps & dd & pv & ops & c1 & _ & P & _ & E).
+  simpl in E. injection E as -> _. simpl in P. destruct d; simpl in P; try discriminate.
+  destruct (numarg "factor" ps); simpl in P; [|discriminate]. injection P as <- _ _. reflexivity.
+Qed.
 
 Print Assumptions C02_no_unresolvable_parameter.
+Print Assumptions C02_no_type_gate_failure.
 Print Assumptions C02_keys_sound_variant.
 Print Assumptions C02_global_difference_refuted.
 Print Assumptions C02_adjacent_typeflow_refuted.
